@@ -150,11 +150,22 @@ def check(case, ev):
 
     rr_v = call(poly.reducable_rows, what="reducable_rows")
     ca_v = call(poly.reducable_columns_approx, what="reducable_columns_approx")
-    fr_v, fc_v = call(poly.reducable_rows_and_columns, what="reducable_rows_and_columns")
+    fr_v, fc_v = pc.bounded(poly.reducable_rows_and_columns, what="reducable_rows_and_columns")
     rr = [bool(x) for x in pc.as_list(rr_v, "reducable_rows()", (sy.nrows,))]
     ca = pc.forced_list(pc.as_list(ca_v, "reducable_columns_approx()", (sy.ncols,)))
     fr = [bool(x) for x in pc.as_list(fr_v, "reducable_rows_and_columns()[0]", (sy.nrows,))]
     fc = pc.forced_list(pc.as_list(fc_v, "reducable_rows_and_columns()[1]", (sy.ncols,)))
+
+    # A_min / A_max: "minimum / maximum coefficient value based on variable's initial bounds" (docstrings)
+    amin = pc.as_list(call(lambda: poly.A_min, what="A_min"), "A_min", (sy.nrows, sy.ncols))
+    amax = pc.as_list(call(lambda: poly.A_max, what="A_max"), "A_max", (sy.nrows, sy.ncols))
+    for i, (_, a) in enumerate(sy.rows):
+        for j, c in enumerate(a):
+            lo, hi = sy.bounds[j]
+            exp = (min(c * lo, c * hi), max(c * lo, c * hi))
+            if (amin[i][j], amax[i][j]) != exp:
+                raise Violation(f"A_min/A_max entry ({i},{j}) = {(amin[i][j], amax[i][j])} but coefficient {c} over bounds "
+                                f"{(lo, hi)} ranges over {exp}")
 
     S, sols, cand = None, [], []
     if mode == "P":
@@ -218,11 +229,11 @@ def parts(tier):
     g = 2048 if tier == "quick" else 20000
     return [
         Part("small", strategy=lambda t: pc.system_case(profile="small", guard=g), check=check,
-             quick=(3, 700), thorough=(6, 9000)),
+             quick=(3, 1200), thorough=(6, 9000)),
         Part("wide", strategy=lambda t: pc.system_case(profile="wide", guard=g), check=check,
-             quick=(2, 500), thorough=(4, 6000)),
+             quick=(2, 800), thorough=(4, 6000)),
         Part("model", strategy=lambda t: pc.model_poly_case(guard=g), check=check,
-             quick=(2, 400), thorough=(4, 5000)),
+             quick=(2, 600), thorough=(4, 5000)),
         Part("model_wide", strategy=lambda t: pc.model_poly_case(guard=g, wide=True), check=check,
-             quick=(1, 250), thorough=(2, 3000)),
+             quick=(1, 400), thorough=(2, 3000)),
     ]
